@@ -17,7 +17,7 @@ from pv.mon import contracts
 ID = 'C07'
 LEVEL = 'exploration'
 TECHNIQUE = ('pairwise metamorphic runtime monitor over enforce/authorize modes on identical inputs; deep input '
-             'snapshots; icontract post-condition on Enforcer.enforce; recording check counts evaluations')
+             'snapshots; icontract post-condition on Enforcer.enforce; recording check counts evaluations; overlapping requests under a deterministic line-level thread scheduler (sys.monitoring)')
 RULE = ('cases = (rule set from the expression generator + fixed always-allow/deny/role/attribute/unknown names + check '
         'objects returning odd falsy/truthy values (0, "", None, [], "yes", object()) + scoped registered policies; 8 % of the triples run against a completely empty rule set) x '
         'credentials (role subsets, scope fields, non-JSON values: bytes, sets, objects, passwords) x targets (nested, '
